@@ -588,7 +588,7 @@ func runC11AbortWhileAnswering(kind string, r *rep.Report) (key, msg string, hel
 		hold := make(chan struct{})
 		var once sync.Once
 		var got atomic.Bool
-		method := map[string]string{"poll": "GET", "data": "POST"}[kind]
+		method := map[string]string{"poll": "GET", "poll-big": "GET", "data": "POST"}[kind]
 		w.SetHoldHeader(func(req rig.Req, code int) chan struct{} {
 			if req.Method != method || req.Sid == "" {
 				return nil
@@ -598,11 +598,17 @@ func runC11AbortWhileAnswering(kind string, r *rep.Report) (key, msg string, hel
 			return ch
 		})
 		var x *rig.Exchange
-		if kind == "poll" {
+		if kind == "poll" || kind == "poll-big" {
 			x = cl.PollStart()
 			time.Sleep(time.Millisecond)
 			rig.Wait()
-			sock.Send(types.NewStringBufferString("m"), nil, nil)
+			m := "m"
+			if kind == "poll-big" {
+				// far more than net/http buffers: the body write reaches the dead connection and
+				// comes back with an error
+				m = strings.Repeat("big-", 40000)
+			}
+			sock.Send(types.NewStringBufferString(m), nil, nil)
 		} else {
 			x = cl.PostStart([]refcodec.Packet{refcodec.Text(refcodec.Message, "hello")})
 		}
@@ -653,7 +659,7 @@ func TestC11(t *testing.T) {
 	}
 	if r.Lane == 3%r.Lanes {
 		for k := 0; k < r.N(8, 200); k++ {
-			for _, kind := range []string{"poll", "data"} {
+			for _, kind := range []string{"poll", "poll-big", "data"} {
 				key, msg, held := runC11AbortWhileAnswering(kind, r)
 				r.Case("abort-while-answering/"+kind, held)
 				if held {
